@@ -129,6 +129,16 @@ func nLongHost(r *rng, name string) string {
 		}
 	}
 
+	if nTextLevel && total > 64 {
+		// the Lean regex model backtracks: a pattern with k consecutive `*` costs about n^k steps on a subject of n
+		// bytes, so the text-level families (which run compiled patterns in the model) keep their long hosts short;
+		// the full lengths are exercised by the wire-level families and the Go-only asserts
+		total = 64
+		if total < lo {
+			total = lo
+		}
+	}
+
 	return nHostOfLen(r, name, total)
 }
 
